@@ -843,6 +843,26 @@ func c14Hub(run *evid.Run, i int, j *Journal) {
 		}
 		return
 	}
+	if codec == "link" {
+		// merges that bring the whole hub (dozens of entries with sealed links, validated by a crowd of workers) at once,
+		// a dozen times: each must come back
+		okb, deadb, dumpb := guardCall(func() {
+			for m := 0; m < 12; m++ {
+				_, _ = w.NewLog(m%4).Join(hub, -1)
+			}
+		}, 120*time.Second)
+		run.Count("whole_hub_merges_under_the_link_codec", 12)
+		if !okb {
+			if deadb {
+				wt := wit()
+				wt["blocked_goroutines"] = dumpb
+				run.Violate("C14/deadlock", det("kind", "hub", "phase", "whole-hub merges"), wt, "a fresh log merging the whole hub (%d entries, sealed links) never returned (%s)", hub.Len(), label)
+			} else {
+				run.Inconclusive("whole-hub merges: watchdog fired without a deadlock state: " + label)
+			}
+			return
+		}
+	}
 	ho := hx.Observe(hub)
 	for sidx, sp := range spokes {
 		so := hx.Observe(sp)
